@@ -1261,3 +1261,12 @@ func (wm WhoMayCall) onlyThroughAllowed(r *Run, f *FuncInfo, allowed map[string]
 	sort.Strings(users)
 	return strings.Join(users, ", ")
 }
+
+// OnlyUsedBy reports, for an unexported declared function, the allowed
+// functions through which alone it is referenced (directly or through further
+// such helpers, two levels); "" when it has any other user.  A rule that
+// confines an effect to a frozen set of functions uses it to accept a helper
+// extracted from one of them.
+func OnlyUsedBy(r *Run, f *FuncInfo, allowed map[string]bool) string {
+	return WhoMayCall{}.onlyThroughAllowed(r, f, allowed, nil, 2)
+}
